@@ -280,7 +280,7 @@ def run(ctx: Ctx):
                 "files (3/4/6 columns, abutting/overlapping/zero-width/off-end bins, comments, unsorted) x cut-offs x both "
                 "algorithms x (processes, chunk size) settings. A case is distinct by (BAM, BED, algorithm, cut-off); "
                 "non-trivial when at least one bin has a counted base")
-    consts = {"ContigLen": 12, "MaxEnd": 14, "Positions": "{0, 3, 9}", "MapQs": "{9, 10, 30}" if thorough else "{9, 10}",
+    consts = {"ContigLen": 12, "MaxEnd": 14, "Positions": "{0, 3, 9}" if thorough else "{0, 9}", "MapQs": "{9, 10, 30}" if thorough else "{9, 10}",
               "MinQs": "{0, 10, 11}" if thorough else "{0, 10}",
               "TwoReads": "TRUE" if thorough else "FALSE"}
     cfg = ctx.cfg("mc-cov", spec="Spec", invariants=["DesignOK"], constants=consts)
@@ -332,7 +332,7 @@ def run(ctx: Ctx):
         s["reads"] = s["reads"][:3]
         ctx.sample(s)
     ctx.validate(TRACE, recs, batch=2000)
-    ctx.exhaustive = ("every single read of MC_Coverage (3 positions x 6 CIGAR shapes x 13 flag states (4 excluding flags and 8 other bits, each alone) x "
+    ctx.exhaustive = ("every single read of MC_Coverage (" + ("3" if thorough else "2") + " positions x 6 CIGAR shapes x 13 flag states (4 excluding flags and 8 other bits, each alone) x "
                       + ("3 MAPQs) x 3" if thorough else "2 MAPQs) x 2") + " cut-offs x 2 "
                       "algorithms against all 120 bins [s,e), 0<=s<=e<=14, of a 12-base contig"
                       + ("; plus all ordered pairs of counted-quality reads" if thorough else ""))
